@@ -234,6 +234,11 @@ func (a *action) opBad(p []string, m *mnode, d virtual.Directory) {
 	via := ""
 	var st any
 	abort := false
+	if kind == "case-colliding-names" {
+		// Counted when reached, whatever the verdict, so that the floor
+		// does not depend on the defect being fixed or listed.
+		a.c.situation("case-colliding-names-directory-accessed")
+	}
 	if msg := guarded(func() { abort = a.badAccess(variant, p, d, pd, &via, &refused, &st) }); msg != "" {
 		a.logf("bad-access %s kind=%s via=%s -> PANIC %s", pathString(p), kind, via, msg)
 		a.h("bad-"+via, "panic")
